@@ -172,3 +172,11 @@ package common
 //@ func (rq ResourceQuery[Opts]) UseOOT() (r bool)
 //@   property C17 C35
 //@   ensures r == (rq.OOT != nil && !tzero(deref(rq.OOT)))
+
+// ---- resource.go: the SQL comparison operators (C38) -----------------------------------------------------------
+// ConvertOperatorToSQL panics on any other operator: every caller has to establish this from what the entity schema admits.
+//@ define sqlOp(op string) bool = op == "$match" || op == "$lt" || op == "$gt" || op == "$lte" || op == "$gte" || op == "$like"
+
+//@ func ConvertOperatorToSQL(operator string) (r string)
+//@   property C38
+//@   requires sqlOp(operator)
